@@ -29,8 +29,10 @@ PROPERTY = "C24"
 RULE = ("a scripted gateway answers each TunnellingRequest of the real UDPTunnel (virtual time, stub socket) with one "
         "fault of {ack, lose, late(>1 s), twice, stale(previous counter), wrongch, error(status)}; all fault sequences up "
         "to length 3 (quick) / 5 (thorough) x 1..3 concurrent send_cemi callers x auto-reconnect on/off x start counters "
-        "253/254/255/0 (preset) and real runs from connect() across the wrap; random longer scripts, mid-send server "
-        "disconnects; plus bare request/acknowledgement exchanges of Tunnelling and DeviceConfiguration with matching, "
+        "253/254/255/0 (preset) and real runs from connect() across the wrap; random longer scripts; connection-level "
+        "events while a send is pending: server DisconnectRequest 20 ms / 0.5 s after a request whose ACK is lost, "
+        "heartbeat failure at 110 s, ConnectResponse of the re-connect delayed 0/0.5/0.7/1.5/3 s (so sends end during "
+        "the handshake), unanswered DisconnectRequest, 1-3 callers, follow-up frames on the new connection; plus bare request/acknowledgement exchanges of Tunnelling and DeviceConfiguration with matching, "
         "stale, foreign-channel and error ACKs before/after the timeout (mode F); non-trivial = distinct scenario with at "
         "least one faulty answer")
 TRUSTED = ["model XknxVerif.Model.TunnelSend is a hand-written monitor; tied by replaying the recorded traces",
@@ -109,8 +111,8 @@ async def _run(loop, case):
             loop.call_later(LAT, inject_ack, (ch + 1) % 256, seq, 0)
         elif f == "error":
             loop.call_later(LAT, inject_ack, ch, seq, ErrorCode.E_CONNECTION_ID.value)
-        elif f == "srvdisc":   # the server closes the channel instead of acknowledging
-            loop.call_later(LAT, lambda: t.transport.transport is not None and
+        elif f in ("srvdisc", "srvdisc5"):   # the ACK is lost and the server closes the channel while the send waits
+            loop.call_later(LAT if f == "srvdisc" else 0.5, lambda: t.transport.transport is not None and
                             t.transport.inject(DisconnectRequest(communication_channel_id=ch)))
         # "lose": nothing
 
@@ -126,6 +128,14 @@ async def _run(loop, case):
 
     await t.connect()
     started[0] = True
+    # connection-level faults: ConnectResponses of the re-connects are delayed, the heartbeat is not answered,
+    # the client's DisconnectRequest is not answered
+    cdelays = [float(x) for x in str(case.get("cdelays", "")).split(",") if x]
+    gw.connect_delay = lambda n: cdelays[n - 2] if 0 <= n - 2 < len(cdelays) else 0.0
+    if case.get("hb") == "fail":
+        gw.answer_state = False
+    if case.get("nodiscresp"):
+        gw.answer_disconnect = False
     seq0 = case.get("seq0", 0)
     warm = case.get("warmup", 0)
     if warm:      # really send `warm` acknowledged frames first (not recorded) instead of presetting the counter
@@ -157,8 +167,16 @@ async def _run(loop, case):
     ids = [[] for _ in range(k)]
     for j in range(n):
         ids[j % k].append(j + 1)
+    if case.get("start"):
+        await asyncio.sleep(float(case["start"]))   # e.g. until just before the heartbeat gives up
     await asyncio.gather(*(caller(x) for x in ids if x))
     await asyncio.sleep(2.0)       # late ACKs still arrive (and must not matter)
+    if t._reconnect_task is not None:   # let a handshake that is still running finish
+        try:
+            async with asyncio.timeout(15):
+                await asyncio.shield(t._reconnect_task)
+        except (TimeoutError, asyncio.CancelledError, CommunicationError):
+            pass
     final = t.sequence_number
     await t.disconnect()
     return f"{c_now} {seq0} " + ",".join(tr), final
@@ -313,16 +331,17 @@ def shrink(case, msg):
     if case.get("mode") == "rr":
         return case
 
-    def fails(c):
+    def fails(c):   # still failing, and still on an observation of the trace if the original failure was one
         try:
-            return oracle(c, run_impl(c)["out"]) is not None
+            m2 = oracle(c, run_impl(c)["out"])
+            return m2 is not None and m2.startswith("obs") == str(msg).startswith("obs")
         except Exception:  # noqa: BLE001
             return False
     c = dict(case)
     c.pop("frames", None)
     if not fails(c):
         c = dict(case)
-    for key, vals in (("callers", [1, 2]), ("warmup", [0]), ("seq0", [0])):
+    for key, vals in (("callers", [1, 2]), ("warmup", [0]), ("seq0", [0]), ("nodiscresp", [0])):
         for v in vals:
             if c.get(key, 0) > v:
                 d = dict(c, **{key: v})
@@ -363,6 +382,31 @@ def generate(rng, tier):
             if length <= 2:
                 for auto in (0, 1):
                     yield {"script": ",".join(sc), "callers": 1, "auto": auto, "seq0": 254, "frames": length + 2}
+    # connection-level events while a send is pending: the server closes the channel (20 ms / 0.5 s after the request
+    # whose ACK is lost) or the heartbeat gives up; the ConnectResponse of the re-connect is delayed, so that sends END
+    # (time out, find no channel) during the handshake; more frames than faults, so sends follow on the new connection
+    ext = FAULTS + ["srvdisc", "srvdisc5"]
+    cds = ["0", "0.5", "0.7", "1.5", "3", "0.7,0.7", "1.5,0.5"]
+    m = 0
+    for length in range(1, (3 if thorough else 2) + 1):
+        for sc in itertools.product(ext, repeat=length):
+            if not any(f.startswith("srvdisc") for f in sc):
+                continue
+            for cd in cds:
+                m += 1
+                for callers in ((1, 2, 3) if (thorough or length == 1) else (1 + m % 3,)):
+                    yield {"script": ",".join(sc), "callers": callers, "auto": 1, "cdelays": cd,
+                           "seq0": (0, 254, 255, 3)[m % 4], "frames": length + 2 + m % 2,
+                           "nodiscresp": (m // 3) % 2}
+    # heartbeat failure (four unanswered ConnectionState requests, 70 s + 4 x 10 s after connect) while a send waits
+    for start in ("109.5", "109.98", "109.0", "108.97", "110.0"):
+        for cd in cds[:5]:
+            for sc in (("lose",), ("lose", "lose"), ("late",), ("lose", "ack"), ("error", "lose")):
+                m += 1
+                if not thorough and m % 3:
+                    continue
+                yield {"script": ",".join(sc), "callers": 1 + m % 3, "auto": 1, "cdelays": cd, "hb": "fail",
+                       "start": start, "seq0": (0, 255)[m % 2], "frames": 3 + m % 2, "nodiscresp": m % 2}
     # bare request/acknowledgement exchanges of both RequestResponse classes
     sts = [0, 0, 0x21, 0x29, 0x04]
     for j in range(3000 if thorough else 500):
